@@ -3,7 +3,7 @@
    DOT: [lex]/[parse] (S_Dot) are an independent lexer and recogniser of the DOT language;
    [compose_dot] (M_Dot) is the model of ComposeDot, tied to the code by correspondence.
    callgrind: [decode] (S_Callgrind) is a reference reader; [cg_lines] (M_Callgrind) the model. *)
-From PV Require Import M_Dot S_Dot S_DotClass L_Dot L_Dot2 L_Dot3 L_Dot4.
+From PV Require Import M_Dot S_Dot S_DotClass L_Dot L_Dot2 L_Dot3 L_Dot4 M_Callgrind S_Callgrind L_Callgrind.
 Open Scope string_scope.
 Open Scope Z_scope.
 
@@ -97,6 +97,64 @@ Theorem dot_dangling_edge_refuted :
 Proof. vm_compute. repeat split; reflexivity. Qed.
 Print Assumptions dot_dangling_edge_refuted.
 
+(* ---------------- callgrind ---------------- *)
+(* for ALL graphs (any names, any 64-bit addresses): the lines printCallgrind writes are read by
+   the reference reader without an undefined or redefined "(n)", every name reference resolves
+   to the intended object / file / function name, every cost line decodes to the node's address
+   and line, and every calls= line to the callee's -- outside the class F11 (callee address
+   written relative to a stale base) *)
+Theorem callgrind_reads_back : forall sample_type unit ns,
+  nodes_addr_ok ns -> in_F11 ns = false ->
+  decode (cg_lines sample_type unit ns) = Some (expected_events ns).
+Proof. exact callgrind_decodes. Qed.
+Print Assumptions callgrind_reads_back.
+
+(* the subposition compression itself is right: relative to p, the written form of c reads c *)
+Theorem callgrind_address_decodes : forall p c,
+  0 <= p < two64 -> 0 <= c < two64 -> dpos p (cg_addr (Some p) c) = c.
+Proof. exact cg_addr_decodes. Qed.
+Print Assumptions callgrind_address_decodes.
+
+(* name compression: the reader's table follows the writer's; a name written a second time is a
+   bare reference to the id it was defined with *)
+Theorem callgrind_name_defined_before_use : forall names t name,
+  trel names t ->
+  exists t', resolve t (fst (cg_name names name)) = Some (name, t') /\ trel (snd (cg_name names name)) t'.
+Proof. exact cg_name_resolve. Qed.
+Print Assumptions callgrind_name_defined_before_use.
+
+(* F11 (ASSUMPTION: positions are relative to the last cost line): previous node at 0x1000 ...
+   0x3000, caller at 0x3010, callee at 0x3000: the callee position is written against the
+   previous node and reads back as the caller's own address *)
+Definition w_cg : list cgnode :=
+  [ {| cn_obj := "/bin/prog"; cn_file := "other.go"; cn_name := "other"; cn_addr := 4096; cn_line := 9; cn_cost := 40; cn_out := [] |};
+    {| cn_obj := "/bin/prog"; cn_file := "callee.go"; cn_name := "callee"; cn_addr := 12288; cn_line := 3; cn_cost := 10; cn_out := [] |};
+    {| cn_obj := "/bin/prog"; cn_file := "main.go"; cn_name := "main"; cn_addr := 12304; cn_line := 7; cn_cost := 5;
+       cn_out := [ {| ce_file := "callee.go"; ce_name := "callee"; ce_addr := 12288; ce_line := 3; ce_cost := 10 |} ] |} ].
+Theorem callgrind_callee_position_refuted :
+  in_F11 w_cg = true /\
+  exists evs, decode (cg_lines "cpu" "ms" w_cg) = Some evs /\ evs_eqb evs (expected_events w_cg) = false /\
+              In (EvCall "/bin/prog" "main.go" "main" "callee.go" "callee" 12304 3 12304 7 10) evs.
+Proof. split; [vm_compute; reflexivity|]. eexists. split; [vm_compute; reflexivity|]. split; [vm_compute; reflexivity|]. vm_compute. auto 10. Qed.
+Print Assumptions callgrind_callee_position_refuted.
+
+(* F20: the structured lines are right, but a name with a newline does not survive as text *)
+Definition w_cg_nl : list cgnode :=
+  [ {| cn_obj := ""; cn_file := "a.go"; cn_name := "a" ++ s_nl ++ "fn=(7)"; cn_addr := 0; cn_line := 0; cn_cost := 1; cn_out := [] |} ].
+Theorem callgrind_newline_name_refuted :
+  names_ok "cpu" "ms" w_cg_nl = false /\ in_F11 w_cg_nl = false /\
+  decode (cg_lines "cpu" "ms" w_cg_nl) = Some (expected_events w_cg_nl) /\
+  callgrind_ok w_cg_nl (print_callgrind "cpu" "ms" w_cg_nl) = false.
+Proof. vm_compute. repeat split; reflexivity. Qed.
+Print Assumptions callgrind_newline_name_refuted.
+
+(* the text level (render, then parse) is covered by evaluating [callgrind_ok] on every case;
+   the full statement, of which callgrind_reads_back is the proved part: *)
+Definition full_statement_callgrind_text : Prop :=
+  forall sample_type unit ns,
+    nodes_addr_ok ns -> in_F11 ns = false -> names_ok sample_type unit ns = true ->
+    callgrind_ok ns (print_callgrind sample_type unit ns) = true.
+
 (* ---------------- non-vacuity ---------------- *)
 Example hypotheses_satisfiable :
   let g := w_graph "main.go" "ms"
@@ -104,4 +162,13 @@ Example hypotheses_satisfiable :
                  de_inline := true; de_residual := true |}] in
   in_F25 g = false /\ in_F26 g = false /\ tab_safe (dg_pct g) = true /\ forallb attrs_safe (dg_nodes g) = true /\
   edge_ids_nonneg g = true /\ edges_within_nodes g = true /\ dot_valid (compose_dot g) = true.
+Proof. vm_compute. repeat split; reflexivity. Qed.
+Definition w_cg_ok : list cgnode :=
+  [ {| cn_obj := "/bin/prog"; cn_file := "main.go"; cn_name := "main"; cn_addr := 0; cn_line := 7; cn_cost := 5;
+       cn_out := [ {| ce_file := "callee.go"; ce_name := "callee"; ce_addr := 0; ce_line := 3; ce_cost := 10 |} ] |};
+    {| cn_obj := "/bin/prog"; cn_file := "callee.go"; cn_name := "callee"; cn_addr := 0; cn_line := 3; cn_cost := 10;
+       cn_out := [ {| ce_file := "callee.go"; ce_name := "callee"; ce_addr := 0; ce_line := 3; ce_cost := 2 |} ] |} ].
+Example callgrind_hypotheses_satisfiable :
+  let ns := w_cg_ok in
+  in_F11 ns = false /\ names_ok "cpu" "ms" ns = true /\ callgrind_ok ns (print_callgrind "cpu" "ms" ns) = true.
 Proof. vm_compute. repeat split; reflexivity. Qed.
